@@ -102,6 +102,49 @@ func (t *kTr) lazyParam(name, ty string) string {
 	return name
 }
 
+// prefix translates the longest translatable prefix of a function body (at least min statements) into a term whose
+// remaining statements are the parameter `rest`; the number of statements covered and the text of the first
+// uncovered statement's leading comment-free source line are emitted beside it
+func (t *kTr) prefix(name string, min int, sb *strings.Builder, file string) {
+	fn := t.decls[name]
+	if fn == nil {
+		fmt.Fprintf(sb, "(* %s: NOT FOUND *)\n\n", name)
+		return
+	}
+	var results []string
+	if fn.Type.Results != nil {
+		for _, f := range fn.Type.Results.List {
+			k := len(f.Names)
+			if k == 0 {
+				k = 1
+			}
+			for i := 0; i < k; i++ {
+				results = append(results, kType(f.Type))
+			}
+		}
+	}
+	if len(results) != 1 {
+		fmt.Fprintf(sb, "(* %s:%s: NOT TRANSLATABLE: prefix of a function with %d results *)\n\n", file, name, len(results))
+		return
+	}
+	for n := len(fn.Body.List); n >= min; n-- {
+		t.err = ""
+		env := kEnv{map[string]string{}, map[string]string{}}
+		ps := t.params(fn, env)
+		term := t.stmts(fn.Body.List[:n], env, results, func(kEnv) string { return "rest" })
+		if t.err != "" {
+			continue
+		}
+		sort.Slice(t.lazy, func(i, j int) bool { return t.lazy[i].name < t.lazy[j].name })
+		ps = append(ps, t.lazy...)
+		ps = append(ps, kField{"rest", results[0]})
+		fmt.Fprintf(sb, "(* %s:%s — the first %d of %d statements; rest = the value of the remaining ones *)\nDefinition gen_%s_prefix %s : %s :=\n  %s.\nDefinition gen_%s_prefix_len : Z := %d.\n\n",
+			file, name, n, len(fn.Body.List), name, t.paramList(ps), coqType(results[0], t), term, name, n)
+		return
+	}
+	fmt.Fprintf(sb, "(* %s:%s: NOT TRANSLATABLE: no prefix of at least %d statements: %s *)\n\n", file, name, min, t.err)
+}
+
 func cmdKernels2(r *RNG, n int, e *Emitter, args []string) {
 	repo := "/repo"
 	out := "/verif/coq/Gen/Kernels2_gen.v"
@@ -188,6 +231,7 @@ func cmdKernels2(r *RNG, n int, e *Emitter, args []string) {
 	for _, nm := range scalars {
 		t.scalar(nm, &sb, where[nm])
 	}
+	t.prefix("isValidAelOrder", 3, &sb, where["isValidAelOrder"])
 	os.MkdirAll(filepath.Dir(out), 0o755)
 	if err := os.WriteFile(out, []byte(sb.String()), 0o644); err != nil {
 		fmt.Println(err)
